@@ -285,7 +285,8 @@ def gen_case(rng, tier):
         return gen_penerror_case(rng, tier)
     mode = "float" if rng.random() < 0.25 else "exact"
     in_font = rng.random() < 0.88
-    ops = [["world", in_font]]
+    # in a font, the glyphs may live in a non-default layer whose default-layer namesakes are decoys
+    ops = [["world", in_font, in_font and rng.random() < 0.3]]
     # what the generator remembers: per contour the on/off-curve pattern (None once it lost track)
     glyphs = {}
     order = []
@@ -559,6 +560,8 @@ class Impl(object):
         self.font = None
         self.glyphs = {}
         self.keep = []
+        self.other_layer = False
+        self.layer = None
         self.raw = None       # the uncanonicalised answer of the last observation (for the oracle)
         self.mid = None       # the point list between the two reversals of cReverse2
 
@@ -566,7 +569,7 @@ class Impl(object):
         if self.in_font:
             if self.font is None:
                 raise KeyError(name)
-            return self.font[name]
+            return self.layer[name]
         return self.glyphs[name]
 
     def new_glyph(self, op):
@@ -576,7 +579,18 @@ class Impl(object):
             if self.font is None:
                 self.font = Font()
                 self.keep.append(self.font)
-            g = self.font.newGlyph(name)
+                self.layer = self.font.newLayer("other") if self.other_layer else self.font.layers.defaultLayer
+                self.keep.append(self.layer)
+            if self.other_layer:
+                # decoy of the same name in the default layer: a huge square nothing in the case resembles
+                d = self.font.newGlyph(name)
+                dp = d.getPointPen()
+                dp.beginPath()
+                for xy in ((-90000, -90000), (90000, -90000), (90000, 90000), (-90000, 90000)):
+                    dp.addPoint(xy, segmentType="line")
+                dp.endPath()
+                self.keep.append(d)
+            g = self.layer.newGlyph(name)
         else:
             g = Glyph()
             g.name = name
@@ -614,10 +628,11 @@ class Impl(object):
         self.mid = None
         if k == "world":
             self.in_font = bool(op[1])
+            self.other_layer = len(op) > 2 and bool(op[2])
             return ok
         if k == "newGlyph":
             return self.new_glyph(op)
-        g = self.glyph(op[1])
+        g = self.glyph(op[2] if k == "inside" else op[1])
         if k == "cBounds":
             c = g[op[2]]
             b = self.raw = c.bounds
@@ -764,8 +779,8 @@ def snap_world(impl):
     res = {}
     if impl.in_font:
         if impl.font is not None:
-            for name in sorted(impl.font.keys()):
-                res[name] = snap_glyph(impl.font[name])
+            for name in sorted(impl.layer.keys()):
+                res[name] = snap_glyph(impl.layer[name])
     else:
         for name, g in impl.glyphs.items():
             res[name] = snap_glyph(g)
@@ -1095,9 +1110,19 @@ def _bez_eval(bz, t):
     return pts[0]
 
 
-def close_to(a, b, tol):
+def close_to(a, b, tol, scale=0.0):
     a, b = float(a), float(b)
-    return abs(a - b) <= tol * max(1.0, abs(a), abs(b))
+    return abs(a - b) <= tol * max(1.0, abs(a), abs(b), scale)
+
+
+def area_scale(contours):
+    """magnitude the rounding error of a float area computation is relative to: the terms cancel, so
+    it is the squared coordinate range, not the result"""
+    m = 1.0
+    for c in contours:
+        for p in c:
+            m = max(m, abs(float(p[0])), abs(float(p[1])))
+    return m * m * max(1, sum(len(c) for c in contours))
 
 
 class Oracle(object):
@@ -1116,14 +1141,17 @@ class Oracle(object):
                 pts = self.w[name]["contours"][index]
                 exact = signed_area(pts)
                 curved = any(p[2] is None for p in pts)
+                scale = area_scale([pts])
             else:
-                exact = abs(sum((signed_area(c) for c in flat_contours(self.w, name)), F(0)))
+                cs = flat_contours(self.w, name)
+                exact = abs(sum((signed_area(c) for c in cs), F(0)))
                 curved = True
+                scale = area_scale(cs)
         except Exception:
             return F(value)
         if F(value) == exact:
             return exact
-        if curved and close_to(value, exact, 1e-9):
+        if curved and close_to(value, exact, 1e-9, scale):
             return exact
         return F(value)
 
@@ -1131,13 +1159,13 @@ class Oracle(object):
         return dict(clause="C17/" + clause, signature="C17/%s/%s" % (clause, site),
                     expected=repr(expected)[:500], observed=repr(observed)[:500])
 
-    def same(self, a, b, tol=None):
+    def same(self, a, b, tol=None, scale=0.0):
         tol = self.tol if tol is None else tol
         if a is None or b is None:
             return a is None and b is None
         if tol == 0:
             return F(a) == F(b)
-        return close_to(a, b, tol)
+        return close_to(a, b, tol, scale)
 
     def same_box(self, a, b, tol=None):
         if a is None or b is None:
@@ -1177,7 +1205,7 @@ class Oracle(object):
         w = self.w
         if k in ("world", "newGlyph"):
             return
-        name = op[1]
+        name = op[2] if k == "inside" else op[1]
         if name not in w:
             return
         g0 = w[name]
@@ -1203,11 +1231,12 @@ class Oracle(object):
                 signed, cw, a = real
                 exp = signed_area(pts)
                 curved = any(p[2] is None for p in pts)
-                if not self.same(signed, exp, 1e-9 if (curved or self.mode == "float") else 0):
+                sc = area_scale([pts])
+                if not self.same(signed, exp, 1e-9 if (curved or self.mode == "float") else 0, sc):
                     yield self.v("area-independent", k, exp, signed)
-                elif not self.same(a, abs(exp), 1e-9 if (curved or self.mode == "float") else 0):
+                elif not self.same(a, abs(exp), 1e-9 if (curved or self.mode == "float") else 0, sc):
                     yield self.v("area-independent", k + ".abs", abs(exp), a)
-                if abs(float(exp)) > 1e-6 * max(1.0, abs(float(exp))) and cw != (exp < 0):
+                if abs(float(exp)) > 1e-6 * max(1.0, sc) and cw != (exp < 0):
                     yield self.v("clockwise-is-negative-area", k, exp < 0, cw)
             elif k == "cOpen":
                 if real != is_open:
@@ -1255,7 +1284,7 @@ class Oracle(object):
                     yield self.v("bounds-within-control", k, cb, real)
             if k == "gArea":
                 exp = abs(sum((signed_area(c) for c in cs), F(0)))
-                if not self.same(real, exp, 1e-9 if (curved or self.mode == "float") else 0):
+                if not self.same(real, exp, 1e-9 if (curved or self.mode == "float") else 0, area_scale(cs)):
                     yield self.v("area-independent", k, exp, real)
             if k == "gMargins":
                 exp = self.margins(g0, bb)
@@ -1277,7 +1306,8 @@ class Oracle(object):
             curved = False
             for c in cs:
                 is_open, bzs = contour_beziers(c)
-                any_open = any_open or (is_open and len(c) > 0)
+                # a one-point contour reaches the pens as a lone moveTo/endPath whatever its type
+                any_open = any_open or (is_open and len(c) > 0) or len(c) == 1
                 curved = curved or any(len(b) > 2 for b in bzs)
                 if bzs:
                     paths.append(bzs)
